@@ -18,7 +18,7 @@ LEVEL = "exploration"
 RULE = ("Exhaustive product page_title x page_footnote x page_source (27) x footnote {table, paragraph, absent} x "
         "source {...} x pageby_header x {plain, page_by, subline_by} x header mode {default, explicit, multi-row, "
         "none} on frames of 3/8/14/24 rows at nrow=8 (1, 2, 3 and 5+ pages; quick tier: a seeded 1/12 slice), "
-        "plus Hypothesis-generated single tables and figure documents with random paper sizes, margins, "
+        "plus Hypothesis-generated single tables and figure documents with random paper sizes (standard formats and arbitrary 4.5-60 in sides), margins, "
         "orientation; a quarter of them rendered a second time after their rtf_page was replaced by another layout. Oracle per parsed page: role sequence matches title? subline? sublineHeading? header* "
         "(heading|data)* footnote? source? with presence dictated by the placement option and first/last status, "
         "header rows on page 1 and on later pages iff pageby_header; every page after the first restates "
@@ -28,7 +28,7 @@ RULE = ("Exhaustive product page_title x page_footnote x page_source (27) x foot
 ASSUMPTIONS = ["blocks are classified by sentinel tags", "multi-section documents are not in this property's quantifier"]
 
 CFG = gen.Cfg(max_cols=5, max_rows=30, nrow_range=(2, 16), allow_group_by=False, attrs=False, dividers=True,
-              page_borders=False)
+              page_borders=False, paper_range=(4.5, 60.0))
 ORDER_RE = re.compile(r"^(T)?(U)?(B)?(H*)((?:G|D)*)(F)?(S)?$")
 CODE = {"title": "T", "subline": "U", "sublinehead": "B", "header": "H", "heading": "G", "data": "D",
         "fnrow": "F", "fnpara": "F", "srcrow": "S", "srcpara": "S", "pict": "D"}
